@@ -159,3 +159,8 @@ PROPS.update({
             "trusted_base": TB_TEMPLATE + ["Go's race detector (ThreadSanitizer runtime) and scheduler: absence of data races is evidenced on the schedules the runs expose, not proved", "hand model JL.model.Heap for the operation-level theorems"],
             "assumptions": ["no builder call runs concurrently with the goroutines (the property's premise)"]},
 })
+
+# C10 at row level ("the raw value of a column declared with raw type T is nil or a T after every successful
+# import") is judged on the template stream as well
+PROPS["C10"]["streams"] = [{"name": "cast"}, {"name": "template"}]
+PROPS["C10"]["rule"] = PROPS["C10"]["rule"] + " ++ " + TEMPLATE_RULE
